@@ -9,11 +9,13 @@ what = None; only = None
 if "--what" in sys.argv: what = sys.argv[sys.argv.index("--what")+1]
 if "--only" in sys.argv: only = sys.argv[sys.argv.index("--only")+1]
 tier = "thorough" if "--thorough" in sys.argv else "quick"
+prefix_fields = int(sys.argv[sys.argv.index("--prefix-fields")+1]) if "--prefix-fields" in sys.argv else 0
 added = 0
 for _round in range(12):
   out = subprocess.run(["./check", pid, tier], cwd=root, capture_output=True, text=True).stdout
   kf = json.load(open(os.path.join(root, "known_findings.json")))
   have = {(f["property"], f["key"]) for f in kf["findings"]}
+  havepat = {(f["property"], f.get("key_pattern", "")) for f in kf["findings"]}
   before = added
   for m in re.finditer(r"VIOLATION property=(\S+) replay=(\S+)", out):
     rep = json.load(open(m.group(2)))
@@ -21,6 +23,15 @@ for _round in range(12):
     if only and only not in key: continue
     if (pid, key) in have: continue
     wit = rep.get("witness")
+    if prefix_fields:
+        pre = ":".join(key.split(":")[:prefix_fields])
+        pat = "^" + re.escape(pre) + "(:|$)"
+        if (pid, pat) in havepat: continue
+        if isinstance(wit, dict):
+            wit = {k: (v if not isinstance(v, str) or len(v) < 800 else v[:800] + "…") for k, v in list(wit.items())[:8]}
+        kf["findings"].append({"property": pid, "key": "", "key_pattern": pat, "what": (what + ": " if what else "") + "e.g. " + key[:200] + " — " + rep["msg"][:300], "witness": wit})
+        havepat.add((pid, pat)); added += 1
+        continue
     if isinstance(wit, dict):
         wit = {k: (v if not isinstance(v, str) or len(v) < 1500 else v[:1500] + "…") for k, v in list(wit.items())[:12]}
     kf["findings"].append({"property": pid, "key": key, "what": (what + ": " if what else "") + rep["msg"][:400], "witness": wit})
